@@ -34,6 +34,7 @@ Ev(e) ==
     [] e.ev = "rbegin"  -> RBegin(e.actor, e.url)
     [] e.ev = "rend"    -> rpc[e.actor] = "done" /\ ResOf(e.actor) = e.res /\ UNCHANGED vars
     [] e.ev = "reset"   -> ResetAll
+    [] OTHER            -> FALSE          \* e.g. "werror": a Set that fails is not a behaviour of the specification
 
 Consume == l <= Len(Trace) /\ Ev(Trace[l]) /\ l' = l + 1
 Silent  == /\ l <= Len(Trace) /\ Trace[l].ev # "reset"
